@@ -61,6 +61,7 @@ class StoreMachine(LoggedMachine):
     ENABLE_LOOKUP = False
     ENABLE_FAULTS = False
     ENABLE_MERGE = False
+    ENABLE_BLOCKED_FIRST = False  # a refused first addition (file name taken) followed by continued use
     ALWAYS_IDENTIFIED = False
 
     def __init__(self):
@@ -142,6 +143,9 @@ class StoreMachine(LoggedMachine):
                 return
             self.store = None
         if not self.path.exists():
+            self.ctx.fail('close.file_missing', 'mismatch', 'TrajectoryStore.close', 'final',
+                          f'a file-backed store with {len(self.model)} successful additions was closed but {self.path.name} '
+                          f'does not exist', self.log)
             return
         try:
             self.store = self.TS.open(base_file=self.path)
@@ -344,8 +348,8 @@ class StoreMachine(LoggedMachine):
         if self.identified:
             self.ids[d['flight_id']] = len(self.model) - 1
 
-    @precondition(lambda self: self.ENABLE_FAULTS and not self.finished and self.store is not None and self.mode == 'w'
-                  and not self.model and not self.path.exists())
+    @precondition(lambda self: (self.ENABLE_FAULTS or self.ENABLE_BLOCKED_FIRST) and not self.finished
+                  and self.store is not None and self.mode == 'w' and not self.model and not self.path.exists())
     @rule(seed=st.integers(0, 2**20), raw_id=sc.FLIGHT_ID)
     def first_add_blocked_then_retry(self, seed, raw_id):
         """The file name is taken by something else when the first trajectory arrives: the add is refused; once the
@@ -515,6 +519,11 @@ class StoreMachine(LoggedMachine):
             # an in-memory store that was never saved is gone
             self.model = []
             self.ids = {}
+        elif self.model and not self.path.exists():
+            self.ctx.fail('close.file_missing', 'mismatch', 'TrajectoryStore.close', self.mode_class(),
+                          f'a file-backed store with {len(self.model)} successful additions was closed but {self.path.name} '
+                          f'does not exist', self.log)
+            self.model, self.ids = [], {}
         self.mode = None
 
     @precondition(lambda self: not self.finished and self.store is None and self.path.exists())
@@ -879,7 +888,11 @@ def plan_strategy(draw, lookups=False, faults=False):
             ops.append(op)
         if mode in ('w', 'mem') and not any(o['op'] in ('burst', 'add_small') for o in ops):
             ops.insert(0, {'op': 'add_small', 'n': 5, 'seed': 1, 'raw_id': 3})
-        sessions.append({'mode': mode, 'cache': draw(st.sampled_from([1, 1, 1, 2, 2048])), 'ops': ops})
+        sess = {'mode': mode, 'cache': draw(st.sampled_from([1, 1, 1, 2, 2048])), 'ops': ops}
+        if mode == 'w' and draw(st.integers(0, 2)) == 0:
+            # the very first addition is refused (file name taken), the cause is removed, the store is used on
+            sess['blocked_first'] = {'seed': draw(st.integers(0, 2**20)), 'raw_id': draw(sc.FLIGHT_ID)}
+        sessions.append(sess)
     return {'plan': True, 'with_bulk': draw(st.integers(0, 3)) > 0, 'identified': draw(st.booleans()), 'sessions': sessions}
 
 
@@ -902,6 +915,9 @@ def run_plan(machine_cls, ctx: core.Ctx, plan: dict):
                     StoreMachine.reopen(m, sess['mode'] == 'a', sess['cache'])
             if m.store is None:
                 break
+            bf = sess.get('blocked_first')
+            if bf and (m.ENABLE_FAULTS or m.ENABLE_BLOCKED_FIRST) and m.mode == 'w' and not m.model and not m.path.exists():
+                StoreMachine.first_add_blocked_then_retry(m, bf['seed'], bf['raw_id'])
             for op in sess['ops']:
                 kind = op['op']
                 if kind == 'burst' and m.mode in ('w', 'a') and m.with_bulk:
